@@ -51,7 +51,8 @@ pub fn severity_number(s: Option<&str>) -> u64 {
         Some("warning") => 2,
         Some("info") => 3,
         Some("hint") => 4,
-        Some(other) => panic!("generator emitted severity {other}"),
+        // an unknown value: only ever rendered on blocks without any violation (see `to_rule_block`)
+        Some(_) => 1,
     }
 }
 
@@ -59,11 +60,22 @@ impl MBlock {
     /// stale references are only attached to blocks that have content lines (whether a content-less block
     /// counts as modified is not stated)
     fn n_affects(&self) -> u8 {
-        if self.lines.is_empty() { 0 } else { self.affects }
+        if self.lines.is_empty() || self.affects >= 4 { 0 } else { self.affects }
     }
     pub fn to_rule_block(&self, name: &str) -> RuleBlock {
+        self.to_rule_block_in(name, false)
+    }
+
+    /// An unknown severity (`warn`) is kept only when the block reports nothing in this mode: it is harmless
+    /// there (C13 makes it an error only on a block that has a violation) and the run's exit status must not
+    /// depend on it.
+    pub fn to_rule_block_in(&self, name: &str, diff_mode: bool) -> RuleBlock {
         let mut attrs = vec![("name".to_string(), Some(name.to_string()))];
-        if let Some(s) = &self.severity {
+        let known = |s: &str| matches!(s.to_ascii_lowercase().as_str(), "error" | "warning" | "info" | "hint");
+        let dummy = crate::rules::BlockPos { tag_line: 1, tag_sc: 1, tag_ec: 1, first_line: 2, end_line: 3 };
+        if let Some(s) = &self.severity
+            && (known(s) || self.expected(&dummy, name, diff_mode).is_empty())
+        {
             attrs.push(("severity".into(), Some(s.clone())));
         }
         if let Some(d) = &self.keep_sorted {
@@ -84,7 +96,10 @@ impl MBlock {
         if let Some(bad) = self.ai {
             attrs.push(("check-ai".into(), Some(format!("condition for {name} {}", if bad { "BAD" } else { "GOOD" }))));
         }
-        if self.n_affects() > 0 {
+        if self.affects == 4 && !self.lines.is_empty() {
+            // a satisfied link: the block references itself (in diff mode it is modified, so nothing is reported)
+            attrs.push(("affects".into(), Some(format!(":{name}"))));
+        } else if self.n_affects() > 0 {
             let refs: Vec<String> = (0..self.n_affects()).map(|k| format!(":stale{k}-{name}")).collect();
             attrs.push(("affects".into(), Some(refs.join(", "))));
         }
@@ -148,7 +163,7 @@ pub fn lay_out(case: &MCase) -> Vec<Laid> {
         .enumerate()
         .map(|(fi, f)| {
             let names: Vec<String> = (0..f.blocks.len()).map(|bi| format!("f{fi}b{bi}")).collect();
-            let rb: Vec<RuleBlock> = f.blocks.iter().zip(&names).map(|(b, n)| b.to_rule_block(n)).collect();
+            let rb: Vec<RuleBlock> = f.blocks.iter().zip(&names).map(|(b, n)| b.to_rule_block_in(n, case.mode % 3 == 2)).collect();
             let r = render_batch(f.host, &rb);
             let expected = f.blocks.iter().zip(&r.pos).zip(&names).flat_map(|((b, p), n)| b.expected(p, n, case.mode % 3 == 2)).collect();
             let ext = f.host.file().rsplit('.').next().unwrap();
@@ -308,7 +323,7 @@ pub fn check(case: &MCase, probe: &Probe) -> Verdict {
 }
 
 const LINES: &[&str] = &["a", "b", "ab", "x1", "xy", "  a", "", "B", "b  ", "zz top"];
-const SEVS: &[Option<&str>] = &[None, Some("error"), Some("warning"), Some("info"), Some("hint"), Some("Warning"), Some("ERROR"), Some("iNfO"), Some("HINT")];
+const SEVS: &[Option<&str>] = &[None, Some("error"), Some("warning"), Some("info"), Some("hint"), Some("Warning"), Some("ERROR"), Some("iNfO"), Some("HINT"), Some("warn")];
 
 pub fn block_strategy() -> BoxedStrategy<MBlock> {
     (
@@ -320,7 +335,7 @@ pub fn block_strategy() -> BoxedStrategy<MBlock> {
         proptest::option::weighted(0.4, any::<bool>()),
         proptest::option::weighted(0.3, any::<bool>()),
         proptest::collection::vec(0..LINES.len(), 0..7),
-        prop_oneof![4 => Just(0u8), 1 => 1u8..4],
+        prop_oneof![4 => Just(0u8), 1 => 1u8..5],
     )
         .prop_map(|(sev, ks, ku, lp, lc, lua, ai, ls, affects)| MBlock {
             severity: SEVS[sev].map(String::from),
@@ -347,7 +362,7 @@ pub fn case_strategy() -> BoxedStrategy<MCase> {
 }
 
 pub fn run(run: &mut Run) {
-    run.rule = "random: 1..5 files (root or sub-directories, one with a space, one with a backslash, one with an accented letter and an emoji in its name) x 1..6 blocks x independent choice of keep-sorted / keep-unique / line-pattern / line-count / check-lua(echo|nil) / check-ai(fake endpoint objecting or answering OK) / affects with 1..3 stale references (live in diff mode: several diagnostics on the same range) on the same lines x severity in {absent, error, warning, info, hint} in random letter case; modes: scan with paths, interactive scan, new-file diff on stdin; then `list` in the same mode (and, in diff mode, `list` with an empty diff, which must print `{}`). Expected diagnostics from the C06–C09 reference models. Non-trivial case = at least two validators reporting on one file and an error among >= 2 non-errors (or the converse).".into();
+    run.rule = "random: 1..5 files (root or sub-directories, one with a space, one with a backslash, one with an accented letter and an emoji in its name) x 1..6 blocks x independent choice of keep-sorted / keep-unique / line-pattern / line-count / check-lua(echo|nil) / check-ai(fake endpoint objecting or answering OK) / affects with 1..3 stale references (live in diff mode: several diagnostics on the same range) or one satisfied self-reference on the same lines x severity in {absent, error, warning, info, hint} in random letter case (and the unknown value `warn` on blocks that report nothing: harmless there); modes: scan with paths, interactive scan, new-file diff on stdin; then `list` in the same mode (and, in diff mode, `list` with an empty diff, which must print `{}`). Expected diagnostics from the C06–C09 reference models. Non-trivial case = at least two validators reporting on one file and an error among >= 2 non-errors (or the converse).".into();
     run.assumptions = vec!["block content lines are shell/ruby words; check-lua scripts are `echo` / `nil` scripts in the repository root".into()];
     run.random("mix", run.tier.pick(1200, 30000), case_strategy, check);
 }
